@@ -1,5 +1,5 @@
 # replay of a bounded stand-in violation (C15): re-run native/c15_hbar.py
 import sys
-print('fock homodyne-select hbar=0.5: second run reports the outcome 0.565685, selected 0.282843')
+print('gaussian X-Z-P: var/hbar at hbar=3.1 is [0.19325, 0.53851], at hbar=0.5 it is [1.19814, 3.33875]')
 print('REPLAY-VIOLATION')
 sys.exit(1)
